@@ -170,10 +170,59 @@ pub fn exec_ext(ops: Vec<Op>, rules: Vec<usize>, iters: usize, seed: u64) -> Cas
     }
 }
 
+/// terms over the ternary operator `t3` with repeated children (same class at two positions, adjacent or separated by
+/// another class, with equal or different arguments), some of them the only or the cheapest way to build their class
+fn gen_ternary(rng: &mut Rng) -> Vec<Op> {
+    let leaf = |v: usize, sl: &[u32]| ATerm { v, fields: sl.iter().map(|s| CField::Slot(*s)).collect(), children: vec![] };
+    let sym = |s: &str| ATerm { v: 16, fields: vec![CField::Lit(s.into())], children: vec![] };
+    let num = |s: &str| ATerm { v: 15, fields: vec![CField::Lit(s.into())], children: vec![] };
+    let bin = |v: usize, a: ATerm, b: ATerm| ATerm { v, fields: vec![CField::App, CField::App], children: vec![a, b] };
+    let t3 = |a: ATerm, b: ATerm, c: ATerm| ATerm { v: 17, fields: vec![CField::App, CField::App, CField::App], children: vec![a, b, c] };
+    let lam = |x: u32, a: ATerm| ATerm { v: 0, fields: vec![CField::Bind(x, Box::new(CField::App))], children: vec![a] };
+    let atoms: Vec<ATerm> = vec![sym("a"), sym("b"), num("1"), leaf(2, &[4]), leaf(2, &[8]), leaf(7, &[4, 8]), leaf(10, &[4])];
+    let pick = |rng: &mut Rng| atoms[rng.below(atoms.len())].clone();
+    let (k, x, y) = (pick(rng), pick(rng), pick(rng));
+    let shapes: Vec<ATerm> = vec![
+        t3(k.clone(), x.clone(), k.clone()),
+        t3(k.clone(), k.clone(), x.clone()),
+        t3(x.clone(), k.clone(), k.clone()),
+        t3(k.clone(), k.clone(), k.clone()),
+        t3(k.clone(), x.clone(), y.clone()),
+        t3(leaf(7, &[4, 8]), x.clone(), leaf(7, &[8, 4])),
+    ];
+    let mut ops: Vec<Op> = Vec::new();
+    let t = shapes[rng.below(shapes.len())].clone();
+    ops.push(Op::Add(t.clone()));
+    match rng.below(4) {
+        0 => {
+            // a more expensive alternative in the same class
+            ops.push(Op::Add(bin(4, bin(5, k.clone(), x.clone()), bin(5, k.clone(), y.clone()))));
+            ops.push(Op::Union(0, 1));
+        }
+        1 => {
+            // the ternary node is the only way to build its class, below a binder
+            ops.push(Op::Add(lam(10, t3(leaf(2, &[10]), k.clone(), leaf(2, &[10])))));
+        }
+        2 => {
+            ops.push(Op::Add(bin(14, t.clone(), x.clone())));
+            ops.push(Op::Add(t3(t.clone(), x.clone(), t.clone())));
+        }
+        _ => {
+            ops.push(Op::Add(shapes[rng.below(shapes.len())].clone()));
+            if rng.chance(1, 2) {
+                ops.push(Op::Union(0, 1));
+            }
+        }
+    }
+    ops
+}
+
 pub fn run(ctx: &mut Ctx) {
     for _ in 0..ctx.count {
         let mut rng = ctx.rng.fork();
-        let (ops, rules, iters) = if rng.chance(1, 2) {
+        let (ops, rules, iters) = if rng.chance(1, 6) {
+            (gen_ternary(&mut rng), vec![], 0)
+        } else if rng.chance(1, 2) {
             let (ops, _) = gen_history(&mut rng);
             (ops, vec![], 0)
         } else {
